@@ -11,7 +11,9 @@ import Tahoe.Web.Authority
        output: `ok` or `err:<class>:<phase>` (phase t = raised during traversal, r = by the render method),
                then ` grid=` objects as `K/ENTRIES/ver`
     `caps GRID CAP PATH json|info|html|uri|rouri` — cap strings shown by a renderer for the node the path
-       resolves to; output `addr.auth` joined by `,` (in model order) or `none` if the path does not resolve. -/
+       resolves to; output `addr.auth` joined by `,` (in model order) or `none` if the path does not resolve.
+    `cache GRID OPS` — a history of `NodeMaker.create_from_cap`: OPS joined by `,`, each `c.addr.auth` (look the cap up and
+       hold the node) or `e` (every node is dropped and collected); output `w`/`r` per lookup (node writeable or not). -/
 open Tahoe.Drv Tahoe.Web
 
 def parseKind : String → Option Kind
@@ -123,6 +125,18 @@ def handle : List String → String
         | "rouri" => showCaps (renderReadonlyUri h)
         | _ => "bad-op"
     | _, _, _ => "bad-op"
+  | ["cache", gs, ops] =>
+    match parseGrid gs with
+    | none => "bad-op"
+    | some g =>
+      let parsed : Option (List CacheOp) := (ops.splitOn ",").mapM (fun o =>
+        if o == "e" then some (CacheOp.collect (fun _ => false))
+        else match o.splitOn "." with
+          | ["c", a, au] => do pure (CacheOp.create false ⟨(← a.toNat?), (← parseAuth au)⟩)
+          | _ => none)
+      match parsed with
+      | none => "bad-op"
+      | some l => ",".intercalate ((runCache g [] l).map (fun h => if h.w then "w" else "r"))
   | _ => "bad-op"
 
 def main : IO Unit := mainLoop handle
